@@ -80,11 +80,17 @@ def build_harness(flavor="ndebug", sanitize=True, opt="-O1"):
         os.makedirs(tmp)
         defs = ["-D" + GUARD] + (["-DNDEBUG"] if flavor == "ndebug" else [])
         san = SAN if sanitize else []
+        # the shim exports the file-local bit-run copier; if this tree no longer has it under that name the harness is built without
+        # (unit token `cp` then prints cp:unavailable and is not compared) instead of not being built at all
+        rc, outp, cmd = _run(["gcc", "-std=gnu11", "-fsyntax-only", "-Werror=implicit-function-declaration", "-I" + REPO, "-I" + os.path.join(REPO, "utcp")] + defs + [shim])
+        use_shim = rc == 0
+        if not use_shim:
+            defs = defs + ["-DVERIF_NO_SHIM"]
         jobs = []
         objs = []
         for pat in C_SOURCES:
             for src in sorted(glob.glob(os.path.join(REPO, pat))):
-                if os.path.relpath(src, REPO) == "utcp/bit_buffer.c":
+                if use_shim and os.path.relpath(src, REPO) == "utcp/bit_buffer.c":
                     src = shim  # the same file, #included, plus an exported wrapper for the static bit-run copier
                 obj = os.path.join(tmp, os.path.relpath(src, REPO).replace("/", "_") + ".o")
                 objs.append(obj)
